@@ -42,6 +42,13 @@ type c07Params struct {
 	Live   bool         `json:"live,omitempty"`  // a live fence connection on key k participates
 	Expire bool         `json:"expire,omitempty"`
 	Spin   bool         `json:"spinlock,omitempty"`
+	// Shrink: an AOFSHRINK runs concurrently with the commands; the rewrite
+	// re-encodes the log, so log positions are not compared; instead the
+	// reported log size must be the file's size, no command may be in the file
+	// twice, and a restart must reproduce the final state
+	Shrink bool `json:"shrink,omitempty"`
+	// QuickBound: preemption bound of this scenario in the quick tier (0 = the tier's bound)
+	QuickBound int `json:"quick_bound,omitempty"`
 	Prop   string       `json:"prop,omitempty"` // property the scenario reports under (default C07)
 }
 
@@ -222,6 +229,9 @@ func c07Run(job *Job, p c07Params, prefix []int) (out schedOut) {
 				vsched.Sleep(1)
 			}
 		}
+		if p.Shrink {
+			c0.c.Inject(respCmd("AOFSHRINK"))
+		}
 		for i := range clis {
 			if _, gated := p.After[i]; !gated {
 				release(i)
@@ -234,6 +244,9 @@ func c07Run(job *Job, p c07Params, prefix []int) (out schedOut) {
 				if !o.done {
 					return false
 				}
+			}
+			if p.Shrink && (countReplies(c0) < 1 || vsched.AliveNamed("L", "aofshrink") > 0) {
+				return false
 			}
 			return true
 		}, int64(30*stdtime.Second))
@@ -254,11 +267,15 @@ func c07Run(job *Job, p c07Params, prefix []int) (out schedOut) {
 			out.Obs = "NO-REPLY"
 			return
 		}
+		if p.Shrink {
+			c0.ReadReply()
+		}
 		final, err := serverCanon(c0)
 		if err != nil {
 			out.Err = err.Error()
 			return
 		}
+		reportedSize := asMap(c0.Do("SERVER"))["aof_size"]
 		c0.Close()
 		for _, c := range clis {
 			c.Close()
@@ -271,10 +288,68 @@ func c07Run(job *Job, p c07Params, prefix []int) (out schedOut) {
 		if len(img) >= preLog {
 			img = img[preLog:]
 		}
+		if p.Shrink {
+			img = vos.Image(len(vos.Log))[aofPath]
+			if reportedSize != fmt.Sprint(len(img)) {
+				out.VSig = p.prop() + "/aof-size-vs-file:" + p.Name
+				out.VDetail = fmt.Sprintf("SERVER reported aof_size %s, appendonly.aof holds %d bytes after the rewrite and the concurrent commands", reportedSize, len(img))
+			}
+			for _, o := range ops {
+				for _, k := range o.logKeys() {
+					if bytes.Count(img, k) > 1 && out.VSig == "" {
+						out.VSig = p.prop() + "/command-in-log-twice:" + p.Name
+						out.VDetail = fmt.Sprintf("the log holds %q %d times after a concurrent AOFSHRINK", k, bytes.Count(img, k))
+					}
+				}
+			}
+			in2, serr := x.TryStart("L2", in.Dir, 9002, nil)
+			if serr != nil {
+				out.VSig, out.VDetail = p.prop()+"/restart-fails-after-concurrent-shrink:"+p.Name, fmt.Sprint(serr)
+				return
+			}
+			c2 := x.Dial(in2.Addr)
+			again, _ := serverCanon(c2)
+			c2.Close()
+			if again != final && out.VSig == "" {
+				out.VSig = p.prop() + "/restart-differs-after-concurrent-shrink:" + p.Name
+				out.VDetail = fmt.Sprintf("served %s ; after restart %s", vclip(final, 300), vclip(again, 300))
+			}
+			if out.VSig != "" {
+				out.Obs = "SHRINK-VIOLATION " + final
+				return
+			}
+		}
+		if !p.Shrink {
+			// the log holds every command once, and the reported size is the file's size
+			full := vos.Image(len(vos.Log))[aofPath]
+			if reportedSize != fmt.Sprint(len(full)) {
+				out.VSig = p.prop() + "/aof-size-vs-file:" + p.Name
+				out.VDetail = fmt.Sprintf("SERVER reported aof_size %s, appendonly.aof holds %d bytes", reportedSize, len(full))
+				out.Obs = "SIZE " + final
+				return
+			}
+			want := map[string]int{}
+			for _, o := range ops {
+				for _, k := range o.logKeys() {
+					want[string(k)]++
+				}
+			}
+			for k, n := range want {
+				if c := bytes.Count(img, []byte(k)); c > n {
+					out.VSig = p.prop() + "/command-in-log-twice:" + p.Name
+					out.VDetail = fmt.Sprintf("the log holds %q %d times, it was sent %d time(s)", k, c, n)
+					out.Obs = "TWICE " + final
+					return
+				}
+			}
+		}
 		// position of each op's (first) write in the log, -1 if not logged
 		pos := make([]int, len(ops))
 		for i, o := range ops {
 			pos[i] = -1
+			if p.Shrink {
+				continue // the rewrite re-encodes and reorders: no position oracle
+			}
 			for _, k := range o.logKeys() {
 				if j := bytes.Index(img, k); j >= 0 && (pos[i] < 0 || j < pos[i]) {
 					pos[i] = j
@@ -293,7 +368,7 @@ func c07Run(job *Job, p c07Params, prefix []int) (out schedOut) {
 		}
 		// the log entries of one atomic step (script, multi-object command) are contiguous
 		for i, o := range ops {
-			if o.anyReply || len(o.logKeys()) < 2 {
+			if o.anyReply || len(o.logKeys()) < 2 || p.Shrink {
 				continue
 			}
 			lo, hi := -1, -1
@@ -454,6 +529,7 @@ func c07Scenarios(tier string) []c07Params {
 		{Name: "eval-gets", Pre: pre, Conns: [][][]string{{{"EVAL", scr, "0"}}, two("GET k a", "GET k b")}, Model: map[string][][]string{"0.0": scrModel}},
 		{Name: "set-then-get", Pre: pre, Conns: [][][]string{one("SET k a POINT 3 3"), one("GET k a")}, After: map[int]int{1: 0}},
 		{Name: "set-live", Pre: pre, Conns: [][][]string{one("SET k a POINT 1.001 1.001")}, Live: true},
+		{Name: "set-del-vs-aofshrink", Pre: pre, Conns: [][][]string{two("SET k a POINT 3 3", "DEL k b"), one("SET k c POINT 4 4")}, Shrink: true, QuickBound: 1},
 		{Name: "set-set-get-spin", Pre: pre, Conns: [][][]string{one("SET k a POINT 3 3"), one("SET k a POINT 4 4"), one("GET k a")}, Spin: true},
 		{Name: "set-vs-sweeper", Pre: append(pre, w("SET k e EX 1.1 POINT 6 6")), Conns: [][][]string{one("SET k e POINT 6 6"), one("GET k e")}, Expire: true},
 	}
@@ -496,8 +572,12 @@ func checkC07(job *Job, res *Result) {
 			continue
 		}
 		sc := schedScenario{Name: "c07." + p.Name, Params: p, Run: func(prefix []int) schedOut { return c07Run(job, p, prefix) }}
-		st := exploreSched(job, res, sc, bound)
-		res.Extra[sc.Name] = map[string]any{"execs": st.Execs, "outcomes": len(st.Outcomes), "max_choice_points": st.MaxPoints}
+		b := bound
+		if p.QuickBound > 0 && job.Tier != "thorough" {
+			b = p.QuickBound
+		}
+		st := exploreSched(job, res, sc, b)
+		res.Extra[sc.Name] = map[string]any{"execs": st.Execs, "outcomes": len(st.Outcomes), "max_choice_points": st.MaxPoints, "bound": b}
 		if p.Name == "set-set" {
 			keys := make([]string, 0, len(st.Outcomes))
 			for k := range st.Outcomes {
